@@ -27,9 +27,15 @@ Inductive wop :=
 | WSetMode (n : N) (htp : bool) (* GetUniverse(n)->SetMergeMode *).
 
 (* save the settings of the universes that left the store, restore those of the ones that appeared *)
+(* the (number, object) bindings of st that st' does not have (each key of st looked up) *)
+Definition moved (st st' : list (N * N)) : list (N * N) :=
+  flat_map (fun n => match sfind n st with
+                     | Some a => if opt_eqb (sfind n st') (Some a) then [] else [(n, a)]
+                     | None => [] end) (map fst st).
+
 Definition settle (st st' : list (N * N)) (w : wstate) (z' : zstate) : wstate :=
-  let gone := filter (fun e => negb (opt_eqb (sfind (fst e) st') (Some (snd e)))) st in
-  let born := filter (fun e => negb (opt_eqb (sfind (fst e) st) (Some (snd e)))) st' in
+  let gone := moved st st' in
+  let born := moved st' st in
   let pname := fold_left (fun f e => upd f (fst e) (Some (w_name w (snd e)))) gone (w_pname w) in
   let pmode := fold_left (fun f e => upd f (fst e) (Some (w_htp w (snd e)))) gone (w_pmode w) in
   (* names are coded: 2*k = the string chosen by SetName (0 = ""), 2*n+1 = the constructor's default
